@@ -1106,6 +1106,9 @@ func (c *kase) flagsOK() bool {
 }
 
 func (prop) Run(line string) core.Outcome {
+	if f := strings.Fields(line); len(f) > 0 && f[0] == "nm" {
+		return runNM(f)
+	}
 	if f := strings.Fields(line); len(f) > 0 && f[0] == "cf" {
 		return runCF(line, f)
 	}
